@@ -8,6 +8,7 @@ import (
 	"bytes"
 	"fmt"
 	"os/exec"
+	"path/filepath"
 	"strings"
 	"sync"
 	"time"
@@ -107,6 +108,58 @@ func (c *c19Ctx) startMonitor(aspects []string) {
 		m.desc["stdout"] = c19Short(strings.ReplaceAll(m.stdout, root, "$ROOT"))
 		m.desc["end"] = m.note
 	}()
+}
+
+// resolveMany: `cdi resolve f1 f2 [f3]` against `cdi resolve` on each file alone (error-free scenarios only: the texts of the
+// two kinds of run are compared byte for byte, and an error listing has no fixed order).  The files name different CDI devices,
+// so an answer which depends on the files before it differs from the answer to the file alone.
+func (c *c19Ctx) resolveMany(r *hx.R, idx int) error {
+	var names []string
+	for _, d := range c.view.Devices {
+		names = append(names, d.GetQualifiedName())
+	}
+	nf := 2 + r.Intn(2)
+	var outArgs []string
+	switch r.Intn(3) {
+	case 1:
+		outArgs = []string{"-o", "json"}
+	case 2:
+		outArgs = []string{"-o", "yaml"}
+	}
+	var files []string
+	var singles []string
+	var sdesc []map[string]interface{}
+	for i := 0; i < nf; i++ {
+		var req []string
+		switch {
+		case len(names) > 0 && i%2 == 0:
+			req = []string{names[(idx+i)%len(names)]}
+		case r.Chance(0.25):
+			req = []string{"v9.example/x=nodev"} // unresolvable: the run ends here
+		}
+		p := filepath.Join(c.root, fmt.Sprintf("many-%d-%d%s", idx, i, hx.Pick(r, []string{".json", ".yaml"})))
+		c19WriteOCI(p, c19OCI(r, req))
+		files = append(files, p)
+		run, err := c19Exec(c.cdiBin, c.root, nil, c.args(append(append([]string{"resolve"}, outArgs...), p)...)...)
+		if err != nil {
+			return err
+		}
+		singles = append(singles, hx.P(hx.S(run.Stdout), hx.Z(int64(run.Exit))))
+		sdesc = append(sdesc, map[string]interface{}{"file": strings.ReplaceAll(p, c.root, "$ROOT"), "cdi_devices": req, "exit": run.Exit, "stdout_bytes": len(run.Stdout)})
+	}
+	cmdline := c.args(append(append([]string{"resolve"}, outArgs...), files...)...)
+	run, err := c19Exec(c.cdiBin, c.root, nil, cmdline...)
+	if err != nil {
+		return err
+	}
+	c.s.Add(hx.Case{
+		Term: hx.C("CResolveMany", hx.L(singles), hx.S(run.Stdout), hx.Z(int64(run.Exit))),
+		Desc: map[string]interface{}{"cmd": append([]string{"cdi"}, c.relArgs(cmdline)...), "population": c.scDesc, "each_file_alone": sdesc,
+			"exit": run.Exit, "stdout": c19Short(strings.ReplaceAll(run.Stdout, c.root, "$ROOT"))},
+		Nontrivial: len(names) > 0,
+		Class:      "resolve <several files>",
+	})
+	return nil
 }
 
 // c19CollectMonitors waits for the monitor runs and adds their cases.
